@@ -43,9 +43,11 @@ CHECK = {
         suite("net", "c02", 8, 80, stdin=True, args=["-suite", "net"], timeout={"quick": 300, "thorough": 1200}),
         suite("comp", "c02", 60, 600, stdin=True, args=["-suite", "comp"], timeout={"quick": 300, "thorough": 1200}),
         suite("val", "c02", 3000, 60000, stdin=True, args=["-suite", "val"], timeout={"quick": 300, "thorough": 900}),
+        suite("hook", "c02", 400, 8000, stdin=True, args=["-suite", "hook"], timeout={"quick": 300, "thorough": 900}),
+        suite("cfg", "c02", 300, 3000, stdin=True, args=["-suite", "cfg"], timeout={"quick": 300, "thorough": 900}),
     ],
     "gen": [{"pkg": "extract_c02", "out": "lean/ClusterVerif/Gen/C02.lean"}],
-    "lean_sources": ["ClusterVerif/Model/C02Source.lean", "ClusterVerif/Gen/C02.lean", "ClusterVerif/Model/C02.lean", "ClusterVerif/Spec/C02.lean", "ClusterVerif/Lemmas/C02.lean", "ClusterVerif/Lemmas/C02Compose.lean", "ClusterVerif/Model/C02Ctx.lean", "ClusterVerif/Lemmas/C02Ctx.lean"],
+    "lean_sources": ["ClusterVerif/Model/C02Source.lean", "ClusterVerif/Gen/C02.lean", "ClusterVerif/Model/C02.lean", "ClusterVerif/Spec/C02.lean", "ClusterVerif/Lemmas/C02.lean", "ClusterVerif/Lemmas/C02Compose.lean", "ClusterVerif/Model/C02Ctx.lean", "ClusterVerif/Lemmas/C02Ctx.lean", "ClusterVerif/Model/C02Hooks.lean"],
     "rule": "set: 2-3 real go-ds-crdt replicas, 2-12 puts/deletes/batches over 1-3 keys, scripted deliveries (old, repeated, newest-first), "
             "final full exchange; thorough: every third case delivers a <=5-delta history to a third replica in the k-th of all permutations. "
             "batch: one real crdt.Consensus, batching off / size 1,2,3,5 / age 60ms, queue 50 or size..size+2, bursts against a worker held inside "
